@@ -126,6 +126,23 @@ func streamGraph() {
 		}
 		rec(0)
 	}
+	// larger shapes: a chain of 40, a fan of 60, the same with the root turned into a cycle member / a dangling issuer
+	for _, n := range []int{40, 60} {
+		chain := make([]int, n)
+		fan := make([]int, n)
+		for j := range chain {
+			chain[j], fan[j] = j-1, 0
+		}
+		fan[0] = -1
+		graphCase(append([]int{}, chain...), false)
+		graphCase(append([]int{}, fan...), false)
+		chain[0] = n - 1
+		graphCase(append([]int{}, chain...), false)
+		chain[0] = 99
+		graphCase(append([]int{}, chain...), false)
+		fan[n-1] = n - 1
+		graphCase(append([]int{}, fan...), false)
+	}
 	// duplicate alias on otherwise valid forests
 	graphCase([]int{-1}, true)
 	graphCase([]int{-1, 0}, true)
